@@ -34,6 +34,7 @@ import (
 	pb "github.com/containerd/stargz-snapshotter/fusemanager/api"
 	"github.com/containerd/stargz-snapshotter/service"
 	"github.com/containerd/stargz-snapshotter/snapshot"
+	"github.com/containerd/stargz-snapshotter/util/namedmutex"
 )
 
 const (
@@ -118,6 +119,10 @@ type Server struct {
 	// fsMap maps mountpoint to its filesystem instance to ensure Mount/Check/Unmount
 	// call the proper filesystem
 	fsMap sync.Map
+	// mpLock serializes Mount and Unmount requests for the same mountpoint. These
+	// requests hold "lock" only for reading so looking up fsMap, calling the
+	// filesystem and updating fsMap and the store could interleave otherwise.
+	mpLock namedmutex.NamedMutex
 	// curFs is filesystem created by latest config
 	curFs snapshot.FileSystem
 	ms    *bolt.DB
@@ -239,6 +244,9 @@ func (fm *Server) Mount(ctx context.Context, req *pb.MountRequest) (*pb.Response
 
 	ctx = log.WithLogger(ctx, log.G(ctx).WithField("mountpoint", req.Mountpoint))
 
+	fm.mpLock.Lock(req.Mountpoint)
+	defer fm.mpLock.Unlock(req.Mountpoint)
+
 	err := fm.mount(ctx, req.Mountpoint, req.Labels)
 	if err != nil {
 		log.G(ctx).WithError(err).Errorf("failed to mount stargz")
@@ -289,6 +297,9 @@ func (fm *Server) Unmount(ctx context.Context, req *pb.UnmountRequest) (*pb.Resp
 	}
 
 	ctx = log.WithLogger(ctx, log.G(ctx).WithField("mountpoint", req.Mountpoint))
+
+	fm.mpLock.Lock(req.Mountpoint)
+	defer fm.mpLock.Unlock(req.Mountpoint)
 
 	obj, found := fm.fsMap.Load(req.Mountpoint)
 	if !found {
